@@ -177,6 +177,11 @@ class World:
         self.live: dict[str, tuple[int, set[str]]] = {}  # block name -> (task id, supplied types) while its body runs
         self.tg_enabled = True
         self.probe_defaults = True
+        self.seq = 0  # logical clock for spawn / block-entry ordering
+        self.block_entry_seq: dict[str, int] = {}
+        self.tg_parked: list[dict[str, Any]] = []  # task-group probes waiting to be released (own low-priority queue)
+        self.tg_anomalies = 0
+        self.tg_snapshot: dict[str, tuple[int, set[Any]]] = {}  # block -> (seq at the instant it was left, probe ids done by then)
 
     def event(self, *ev: Any) -> None:
         self.events.append(ev)
@@ -184,6 +189,31 @@ class World:
     def fresh(self) -> int:
         self.uid += 1
         return self.uid
+
+    def tick(self) -> int:
+        self.seq += 1
+        return self.seq
+
+    def idle(self, timeout: float | None) -> bool:
+        """loop idle hook: ordinary gates first (scheduler choice); only when none is parked, release ONE task-group
+        probe: the oldest one spawned after the innermost exiting block was entered (those are the ones that block can
+        legitimately be waiting for). If the exiting block waits although no such probe exists, release the oldest probe
+        at all (keeps the run alive; counted as an anomaly, the ownership monitor will see the consequence)."""
+        if self.sched.idle(timeout):
+            return True
+        live = [r for r in self.tg_parked if not r["fut"].done()]
+        self.tg_parked = live
+        if not live:
+            return False
+        x = self.block_stack_exiting[-1] if self.block_stack_exiting else None
+        cand = [r for r in live if x is not None and r["seq"] > self.block_entry_seq.get(x, 0)]
+        if x is not None and not cand:
+            self.tg_anomalies += 1
+        rec = (cand or live)[0]
+        self.tg_parked.remove(rec)
+        rec["released_during"] = x
+        rec["fut"].set_result(None)
+        return True
 
 
 def _outcome(fn: Any) -> tuple[str, Any]:
@@ -232,25 +262,27 @@ def take_probe(W: World, pid: Any, rng: random.Random | None = None) -> dict[str
         if token in m:
             msgs.append((rec.name, m))
     obs["log"] = msgs
-    # task group owner: a low-priority gated probe task; the block whose exit is pending when it gets released owns it
+    # task group owner: a parked probe task spawned through ctx.spawn; who waits for it / cancels it is observed through
+    # done() snapshots taken at the instant each block is left (see run_block.left and World.idle)
     if W.tg_enabled:
-        rec = {"pid": pid, "released_during": "never", "done": False}
+        rec = {"pid": pid, "seq": W.tick(), "released_during": "never", "done": False, "task": None, "spawn_error": None, "cancelled": False}
         W.tgprobes.append(rec)
 
         async def tgprobe(rec: dict[str, Any] = rec) -> None:
+            rec["fut"] = asyncio.get_running_loop().create_future()
+            W.tg_parked.append(rec)
             try:
-                await W.sched.gate(f"tg-{pid}-{len(W.tgprobes)}")
-                rec["released_during"] = W.block_stack_exiting[-1] if W.block_stack_exiting else None
+                await rec["fut"]
             except asyncio.CancelledError:
-                rec["released_during"] = ("cancelled", W.block_stack_exiting[-1] if W.block_stack_exiting else None)
+                rec["cancelled"] = True
                 raise
             finally:
                 rec["done"] = True
 
         try:
-            ctx.spawn(tgprobe)
+            rec["task"] = ctx.spawn(tgprobe)
         except BaseException as exc:  # noqa: BLE001
-            rec["released_during"] = ("spawn-error", repr(exc))
+            rec["spawn_error"] = repr(exc)
         obs["tg"] = rec
     me = id(asyncio.current_task())
     mine = set().union(*[ts for (tid, ts) in W.live.values() if tid == me] or [set()])
@@ -327,6 +359,11 @@ def make_exc(kind: str, tag: str) -> BaseException:
         return BodyBase(tag)
     if kind == "raise-cancelled":
         return asyncio.CancelledError(tag)
+    builtin = {"raise-keyerror": KeyError, "raise-timeout": TimeoutError, "raise-stopasync": StopAsyncIteration, "raise-lookup": LookupError, "raise-runtime": RuntimeError, "raise-assert": AssertionError}
+    if kind in builtin:
+        return builtin[kind](tag)
+    if kind == "raise-group":
+        return ExceptionGroup(tag, [BodyExc(tag), KeyError(tag)])
     raise ValueError(kind)
 
 
@@ -336,6 +373,7 @@ async def run_block(W: World, block: dict[str, Any], rng: random.Random | None) 
     name, kind = block["name"], block["kind"]
     states = [family.make(t, u) for t, u in block["supply"]]
     W.block_phase[name] = "entering"
+    W.block_entry_seq[name] = W.tick()
     W.event("enter", name)
 
     async def body() -> None:
@@ -373,6 +411,7 @@ async def run_block(W: World, block: dict[str, Any], rng: random.Random | None) 
             W.block_stack_exiting.remove(name)
         W.block_phase[name] = "exited"
         W.exit_snapshot[name] = {tn: t.done() for tn, t in W.tasks.items() if W.task_owner.get(tn) == name}
+        W.tg_snapshot[name] = (W.tick(), {r["pid"] for r in W.tgprobes if r["task"] is not None and r["task"].done()})
         W.event("exit", name)
 
     if kind == "ascope":
